@@ -3,6 +3,7 @@ package keeper
 import (
 	"math/big"
 
+	sdkmath "cosmossdk.io/math"
 	sdk "github.com/cosmos/cosmos-sdk/types"
 
 	"mods.irisnet.org/modules/token/types"
@@ -21,6 +22,11 @@ func VerifC09_Mint() {
 	cap := verifMul(new(big.Int).SetUint64(max), prec)
 	supply := verifIntIn("supply", big.NewInt(0), cap) // invariant K2: supply <= cap
 	tok := e.seedToken("kitty", "kit", scale, 0, max, mintable, e.owner, supply, e.other)
+	// somebody else's token whose SYMBOL is this token's minimum unit (symbols and minimum units are unique among
+	// themselves only): mintable, far below its cap, owned by the stranger - coins are named by minimum units
+	if verifChoice("crossingNames", 2) == 1 {
+		e.seedToken(tok.MinUnit, "zkit", scale, 0, types.MaximumMaxSupply, true, e.stranger, sdkmath.ZeroInt(), e.stranger)
+	}
 	// coins of this token may have been burned before (they have left the supply; the tally only records them)
 	if verifChoice("hasBurnTally", 2) == 1 {
 		e.k.AddBurnCoin(e.ctx, sdk.Coin{Denom: tok.MinUnit, Amount: verifIntIn("burnTally", big.NewInt(1), verifPow2(100))})
